@@ -17,62 +17,62 @@ import (
 	"gorm.io/gorm"
 )
 
-type AHome struct {
+type C12Home struct {
 	ID   uint `gorm:"primaryKey"`
 	Name string
 }
-type ACard struct {
-	ID      uint `gorm:"primaryKey"`
-	Name    string
-	AUserID *uint
+type C12Card struct {
+	ID        uint `gorm:"primaryKey"`
+	Name      string
+	C12UserID *uint
 }
-type AItem struct {
-	ID      uint `gorm:"primaryKey"`
-	Name    string
-	AUserID *uint
+type C12Item struct {
+	ID        uint `gorm:"primaryKey"`
+	Name      string
+	C12UserID *uint
 }
-type ATag struct {
+type C12Tag struct {
 	ID   uint `gorm:"primaryKey"`
 	Name string
 }
-type ANote struct {
+type C12Note struct {
 	ID         uint `gorm:"primaryKey"`
 	Name       string
 	HolderID   *uint
 	HolderType string
 }
-type ABadge struct {
+type C12Badge struct {
 	ID         uint `gorm:"primaryKey"`
 	Name       string
 	HolderID   *uint
 	HolderType string
 }
-type ASeal struct { // has-one held BY VALUE (assign-back path of saveAssociation)
-	ID      uint `gorm:"primaryKey"`
-	Name    string
-	AUserID *uint
+type C12Seal struct { // has-one held BY VALUE (assign-back path of saveAssociation)
+	ID        uint `gorm:"primaryKey"`
+	Name      string
+	C12UserID *uint
 }
-type APart struct { // has-many held as []*APart
-	ID      uint `gorm:"primaryKey"`
-	Name    string
-	AUserID *uint
+type C12Part struct { // has-many held as []*C12Part
+	ID        uint `gorm:"primaryKey"`
+	Name      string
+	C12UserID *uint
 }
-type AUser struct {
+type C12User struct {
 	ID      uint `gorm:"primaryKey"`
 	Name    string
 	HomeID  *uint
-	Home    *AHome
-	Card    *ACard
-	Items   []AItem
-	Tags    []ATag   `gorm:"many2many:a_user_tags"`
-	Notes   []ANote  `gorm:"polymorphic:Holder"`
-	Badge   *ABadge  `gorm:"polymorphic:Holder"`
-	Friends []*AUser `gorm:"many2many:a_friends"`
-	Seal    ASeal
-	Parts   []*APart
+	Home    *C12Home
+	Card    *C12Card
+	Items   []C12Item
+	Tags    []C12Tag   `gorm:"many2many:c12_user_tags"`
+	Notes   []C12Note  `gorm:"polymorphic:Holder"`
+	Badge   *C12Badge  `gorm:"polymorphic:Holder"`
+	Friends []*C12User `gorm:"many2many:c12_friends"`
+	Seal    C12Seal
+	Parts   []*C12Part
 }
 
-var c12Models = []interface{}{&AHome{}, &ACard{}, &AItem{}, &ATag{}, &ANote{}, &ABadge{}, &ASeal{}, &APart{}, &AUser{}}
+var c12Models = []interface{}{&C12Home{}, &C12Card{}, &C12Item{}, &C12Tag{}, &C12Note{}, &C12Badge{}, &C12Seal{}, &C12Part{}, &C12User{}}
 
 // relation kinds.  Class = the shape of the link store: "bt" fk column on the owner row, "fk" fk column on
 // the target row (has-one / has-many / polymorphic), "m2m" join rows.
@@ -82,23 +82,23 @@ type c12Kind struct {
 	Class  string
 	Card1  bool   // has-one / belongs-to: at most one link per owner, Append behaves as Replace
 	Table  string // target table
-	FK     string // fk column (bt: on a_users; fk: on the target table)
-	Poly   bool   // polymorphic: holder_type column must equal "a_users"
+	FK     string // fk column (bt: on c12_users; fk: on the target table)
+	Poly   bool   // polymorphic: holder_type column must equal "c12_users"
 	Join   string // m2m join table
 	JOwner string
 	JTgt   string
 }
 
 var c12Kinds = []c12Kind{
-	{Name: "belongs_to", Field: "Home", Class: "bt", Card1: true, Table: "a_homes", FK: "home_id"},
-	{Name: "has_one", Field: "Card", Class: "fk", Card1: true, Table: "a_cards", FK: "a_user_id"},
-	{Name: "has_many", Field: "Items", Class: "fk", Table: "a_items", FK: "a_user_id"},
-	{Name: "many2many", Field: "Tags", Class: "m2m", Table: "a_tags", Join: "a_user_tags", JOwner: "a_user_id", JTgt: "a_tag_id"},
-	{Name: "poly_many", Field: "Notes", Class: "fk", Table: "a_notes", FK: "holder_id", Poly: true},
-	{Name: "poly_one", Field: "Badge", Class: "fk", Card1: true, Table: "a_badges", FK: "holder_id", Poly: true},
-	{Name: "has_one_val", Field: "Seal", Class: "fk", Card1: true, Table: "a_seals", FK: "a_user_id"},
-	{Name: "has_many_ptr", Field: "Parts", Class: "fk", Table: "a_parts", FK: "a_user_id"},
-	{Name: "self_m2m", Field: "Friends", Class: "m2m", Table: "a_users", Join: "a_friends", JOwner: "a_user_id", JTgt: "friend_id"},
+	{Name: "belongs_to", Field: "Home", Class: "bt", Card1: true, Table: "c12_homes", FK: "home_id"},
+	{Name: "has_one", Field: "Card", Class: "fk", Card1: true, Table: "c12_cards", FK: "c12_user_id"},
+	{Name: "has_many", Field: "Items", Class: "fk", Table: "c12_items", FK: "c12_user_id"},
+	{Name: "many2many", Field: "Tags", Class: "m2m", Table: "c12_tags", Join: "c12_user_tags", JOwner: "c12_user_id", JTgt: "c12_tag_id"},
+	{Name: "poly_many", Field: "Notes", Class: "fk", Table: "c12_notes", FK: "holder_id", Poly: true},
+	{Name: "poly_one", Field: "Badge", Class: "fk", Card1: true, Table: "c12_badges", FK: "holder_id", Poly: true},
+	{Name: "has_one_val", Field: "Seal", Class: "fk", Card1: true, Table: "c12_seals", FK: "c12_user_id"},
+	{Name: "has_many_ptr", Field: "Parts", Class: "fk", Table: "c12_parts", FK: "c12_user_id"},
+	{Name: "self_m2m", Field: "Friends", Class: "m2m", Table: "c12_users", Join: "c12_friends", JOwner: "c12_user_id", JTgt: "friend_id"},
 }
 
 func c12KindByName(n string) *c12Kind {
@@ -122,7 +122,7 @@ type c12Op struct {
 
 type c12Seq struct {
 	Kind     string  `json:"kind"`
-	Owners   int     `json:"owners"`    // 1 = db.Model(&u1); 2 = db.Model(&[]AUser{u1,u2}) / []*AUser
+	Owners   int     `json:"owners"`    // 1 = db.Model(&u1); 2 = db.Model(&[]C12User{u1,u2}) / []*C12User
 	OwnerPtr bool    `json:"owner_ptr"` // slice of pointers
 	Pre      []int   `json:"pre"`       // target keys existing before the sequence
 	By       []int   `json:"by"`        // targets linked to the bystander owner u3 before the sequence
@@ -152,13 +152,13 @@ type c12Obs struct {
 	Mem     [][]int  `json:"mem"`     // per operated owner: distinct non-zero keys held by the in-memory field, sorted
 	MemRaw  [][]int  `json:"mem_raw"` // per operated owner: keys in field order, with duplicates / zero keys
 	ArgIDs  []int    `json:"arg_ids"` // keys of the caller's argument records after the call (assign-back)
-	Stmts   []string `json:"stmts"`   // write statements sent for this step: "INSERT a_items", "UPDATE a_items", ...
+	Stmts   []string `json:"stmts"`   // write statements sent for this step: "INSERT c12_items", "UPDATE c12_items", ...
 	Names   map[int]string
 	Labels  []string `json:"labels"` // labels of the argument targets in flattened order
 }
 
 func c12TargetType(k *c12Kind) reflect.Type {
-	f, _ := reflect.TypeOf(AUser{}).FieldByName(k.Field)
+	f, _ := reflect.TypeOf(C12User{}).FieldByName(k.Field)
 	t := f.Type
 	for t.Kind() == reflect.Ptr || t.Kind() == reflect.Slice {
 		t = t.Elem()
@@ -166,7 +166,7 @@ func c12TargetType(k *c12Kind) reflect.Type {
 	return t
 }
 
-func c12MemIDs(u *AUser, k *c12Kind) (raw []int) {
+func c12MemIDs(u *C12User, k *c12Kind) (raw []int) {
 	f := reflect.ValueOf(u).Elem().FieldByName(k.Field)
 	raw = []int{}
 	var one func(v reflect.Value)
@@ -189,7 +189,7 @@ func c12MemIDs(u *AUser, k *c12Kind) (raw []int) {
 	return raw
 }
 
-func distinctSorted(raw []int) []int {
+func c12DistinctSorted(raw []int) []int {
 	seen := map[int]bool{}
 	out := []int{}
 	for _, x := range raw {
@@ -228,11 +228,11 @@ func c12QueryPairs(db *gorm.DB, q string) [][2]int {
 func c12Links(db *gorm.DB, k *c12Kind) [][2]int {
 	switch k.Class {
 	case "bt":
-		return c12QueryPairs(db, "SELECT id, "+k.FK+" FROM a_users WHERE "+k.FK+" IS NOT NULL")
+		return c12QueryPairs(db, "SELECT id, "+k.FK+" FROM c12_users WHERE "+k.FK+" IS NOT NULL")
 	case "fk":
 		q := "SELECT " + k.FK + ", id FROM " + k.Table + " WHERE " + k.FK + " IS NOT NULL"
 		if k.Poly {
-			q += " AND holder_type = 'a_users'"
+			q += " AND holder_type = 'c12_users'"
 		}
 		return c12QueryPairs(db, q)
 	default:
@@ -310,7 +310,7 @@ func c12Setup(db *gorm.DB, k *c12Kind, s c12Seq) {
 		}
 	}
 	for i := 1; i <= 3; i++ {
-		ex("INSERT INTO a_users (id, name) VALUES (?, ?)", i, fmt.Sprint("u", i))
+		ex("INSERT INTO c12_users (id, name) VALUES (?, ?)", i, fmt.Sprint("u", i))
 	}
 	by := map[int]int{}
 	for _, b := range s.By {
@@ -325,7 +325,7 @@ func c12Setup(db *gorm.DB, k *c12Kind, s c12Seq) {
 		case "bt":
 			ex("INSERT INTO "+k.Table+" (id, name) VALUES (?, ?)", p, name)
 			if by[p] != 0 {
-				ex("UPDATE a_users SET "+k.FK+" = ? WHERE id = ?", p, by[p])
+				ex("UPDATE c12_users SET "+k.FK+" = ? WHERE id = ?", p, by[p])
 			}
 		case "fk":
 			var fk interface{}
@@ -333,7 +333,7 @@ func c12Setup(db *gorm.DB, k *c12Kind, s c12Seq) {
 				fk = by[p]
 			}
 			if k.Poly {
-				ex("INSERT INTO "+k.Table+" (id, name, "+k.FK+", holder_type) VALUES (?, ?, ?, ?)", p, name, fk, "a_users")
+				ex("INSERT INTO "+k.Table+" (id, name, "+k.FK+", holder_type) VALUES (?, ?, ?, ?)", p, name, fk, "c12_users")
 			} else {
 				ex("INSERT INTO "+k.Table+" (id, name, "+k.FK+") VALUES (?, ?, ?)", p, name, fk)
 			}
@@ -424,9 +424,9 @@ func c12ExecTrace(s c12Seq, trace func(step int, evs []Event)) []c12Obs {
 	c12Setup(db, k, s)
 
 	// the operated records: created here once; every operation of the sequence is applied to them
-	var owners []*AUser
+	var owners []*C12User
 	var model interface{}
-	vals := []AUser{{ID: c12Owner1, Name: "u1"}, {ID: c12Owner2, Name: "u2"}}
+	vals := []C12User{{ID: c12Owner1, Name: "u1"}, {ID: c12Owner2, Name: "u2"}}
 	if len(s.Own) > 0 {
 		// u1 already has links: load the operated records with the relation preloaded (in-memory field = stored links)
 		vals = nil
@@ -436,14 +436,14 @@ func c12ExecTrace(s c12Seq, trace func(step int, evs []Event)) []c12Obs {
 	}
 	switch {
 	case s.Owners <= 1:
-		owners = []*AUser{&vals[0]}
+		owners = []*C12User{&vals[0]}
 		model = owners[0]
 	case s.OwnerPtr:
-		owners = []*AUser{&vals[0], &vals[1]}
-		ps := []*AUser{owners[0], owners[1]}
+		owners = []*C12User{&vals[0], &vals[1]}
+		ps := []*C12User{owners[0], owners[1]}
 		model = &ps
 	default:
-		owners = []*AUser{&vals[0], &vals[1]}
+		owners = []*C12User{&vals[0], &vals[1]}
 		model = &vals
 	}
 
@@ -566,7 +566,7 @@ func c12ExecTrace(s c12Seq, trace func(step int, evs []Event)) []c12Obs {
 		for _, u := range owners {
 			raw := c12MemIDs(u, k)
 			o.MemRaw = append(o.MemRaw, raw)
-			o.Mem = append(o.Mem, distinctSorted(raw))
+			o.Mem = append(o.Mem, c12DistinctSorted(raw))
 		}
 		o.ArgIDs = []int{}
 		for _, r := range recs {
